@@ -7,7 +7,8 @@
    [resolve defs d = Ok e] restrict a statement to dictionaries the constructor accepts (the reject theorems and
    the correspondence check say which those are). *)
 From Isobar Require Import Base.Prelude Tonal.Key Tonal.KeyProofs Generated.Tables Generated.TablesC03
-  Sched.Event Sched.EventSpec Sched.EventProofs Sched.EventCfg Sched.EventCfgProofs.
+  Sched.Event Sched.EventSpec Sched.EventProofs Sched.EventCfg Sched.EventCfgProofs
+  Tonal.Held Tonal.HeldProofs Sched.EventHeld Sched.EventHeldProofs.
 From Coq Require Import String QArith.
 Local Open Scope Z_scope.
 Local Notation length := List.length (only parsing).
@@ -438,3 +439,88 @@ Example C03_stream_nonvacuous :
          (4, Call "note_on" [VInt 62; VInt 64; VInt 3])], Ok tt)
   /\ flat_defaults lib_defaults = true.
 Proof. vm_compute. repeat split. Qed.
+
+(** * "keys given as objects": the key of an event (or the timeline's default key) is a Key OBJECT that the user holds and
+      re-tunes IN PLACE between the events of a running track (key.tonic = ..., key.scale = ..., key.scale.semitones = ...,
+      key.scale.shuffle() / change()).  Model: Sched/EventHeld.v - dictionaries and defaults hold REFERENCES [held_ref slot]
+      into the store of Key and Scale objects of Tonal/Held.v, the store is part of the state, [deref_dict hs d] reads a
+      dictionary in the store hs.  [hplay N muted ch ms n t h] runs n ticks from tick t in state h; [ms] are the in-place
+      operations performed between the ticks, [ch] the assignments to timeline.defaults.  All statements hold in EVERY state:
+      after any number of events already played with the key and any operations already performed on it. *)
+
+(* each event is resolved with the key AS IT IS when the event is due: the messages of the tick are those of [dispatch] on
+   [resolve] of the dictionary read in the store after every operation made so far *)
+Theorem C03_held_key_current : forall N muted ch ms n t h d rest e dur,
+  let hs := apply_muts ms (t - 1) (h_store h) in
+  let defs := apply_changes ch (t - 1) (c_defs (h_c h)) in
+  c_stream (h_c h) = d :: rest -> Qle_bool (c_next (h_c h)) (t # N) = true ->
+  flat_defaults defs = true ->
+  resolve (deref_dict hs defs) (deref_dict hs d) = Ok e ->
+  py_float (e_duration e) = Ok dur -> Qle_bool (Qred (c_next (h_c h) + dur)) (t # N) = false ->
+  snd (hplay N muted ch ms (S n) t h) <> Unmodelled ->
+  exists offs tr, fst (hplay N muted ch ms (S n) t h) = tag t (offs ++ p_calls (dispatch muted e)) ++ tr
+                  /\ only_note_offs offs.
+Proof. exact hplay_performs. Qed.
+Print Assumptions C03_held_key_current.
+
+(* ... so each chord voice plays key[degree] + 12 * octave + transpose for the definition k the held object has in the
+   store of that moment (to which C13_held_retune / C13_held_scale_object_retuned say what every operation did): the key
+   named by the dictionary, or - when the dictionary names none - the timeline's default key *)
+Theorem C03_held_key_pitch : forall st defs d e slot k dv z ov tv oc tr,
+  defaults_shape defs -> resolve (deref_dict st defs) (deref_dict st d) = Ok e ->
+  spec_selecting_key (dhas d) = Some K_NOTE ->
+  dget d K_NOTE = None -> dget d K_DEGREE = Some dv -> degree_floor dv = Some z ->
+  key_is_held defs d slot -> Held.key_of st slot = Some k ->
+  spec_param (deref_dict st defs) (deref_dict st d) [K_OCTAVE] K_OCTAVE = Some ov -> py_int ov = Ok oc ->
+  spec_param (deref_dict st defs) (deref_dict st d) [K_TRANSPOSE] K_TRANSPOSE = Some tv -> py_int tv = Ok tr ->
+  exists a g ch pb, e_body e = BNote (VInt (spec_pitch k z oc tr)) a g ch pb.
+Proof. exact held_scalar_pitch. Qed.
+Print Assumptions C03_held_key_pitch.
+
+Theorem C03_held_key_pitch_chord : forall st defs d e slot k l zs ov tv oc tr,
+  defaults_shape defs -> resolve (deref_dict st defs) (deref_dict st d) = Ok e ->
+  spec_selecting_key (dhas d) = Some K_NOTE ->
+  dget d K_NOTE = None -> (dget d K_DEGREE = Some (VTup l) \/ dget d K_DEGREE = Some (VList l)) -> l <> [] ->
+  degree_floors l = Some zs ->
+  key_is_held defs d slot -> Held.key_of st slot = Some k ->
+  spec_param (deref_dict st defs) (deref_dict st d) [K_OCTAVE] K_OCTAVE = Some ov -> py_int ov = Ok oc ->
+  spec_param (deref_dict st defs) (deref_dict st d) [K_TRANSPOSE] K_TRANSPOSE = Some tv -> py_int tv = Ok tr ->
+  exists a g ch pb, e_body e = BNote (VList (map (fun z => VInt (spec_pitch k z oc tr)) zs)) a g ch pb.
+Proof. exact held_chord_pitch. Qed.
+Print Assumptions C03_held_key_pitch_chord.
+
+(* a dictionary with an unknown key is rejected at any position of such a stream, whatever the held objects are *)
+Theorem C03_held_reject_unknown_key_anywhere : forall N muted ch ms n t h d rest k v,
+  c_stream (h_c h) = d :: rest -> Qle_bool (c_next (h_c h)) (t # N) = true ->
+  In (k, v) d -> known_param k = false ->
+  exists offs, hplay N muted ch ms (S n) t h = (tag t offs, Raise ValueError) /\ only_note_offs offs.
+Proof.
+  intros N muted ch ms n t h d rest k v Hs Hd Hin Hk.
+  apply (hplay_reject N muted ch ms n t h d rest ValueError Hs Hd); [|reflexivity].
+  apply (reject_unknown _ _ k (deref_val (apply_muts ms (t - 1) (h_store h)) v)); [apply in_deref; exact Hin|exact Hk].
+Qed.
+Print Assumptions C03_held_reject_unknown_key_anywhere.
+
+(* as long as nothing is re-tuned, holding a key object is giving the key by value: the stateful model is Sched/EventCfg.v's
+   on the stream read in the (unchanging) store, so every theorem about run_cfg / run_track carries over *)
+Theorem C03_held_without_retuning : forall N muted ch hs n t c,
+  hplay N muted ch [] n t (mkH c hs) = cplay N muted (deref_changes hs ch) n t (deref_cstate hs c).
+Proof. exact hplay_cplay. Qed.
+Print Assumptions C03_held_without_retuning.
+
+(* non-vacuity: degrees 0, 2, (4, 6), -1 at octave 5 in one held key, C major; after 4 beats key.tonic = 2, after 8 beats
+   key.scale = <a minor scale object>, the Scale object of the first phase is also re-tuned once the key has left it (no
+   effect); every pass plays key[degree] of the key as it is then *)
+Example C03_held_nonvacuous :
+  let ev := fun dg => [("degree"%string, dg); ("key"%string, held_ref 0); ("octave"%string, VInt 5)] in
+  let pass := [ev (VInt 0); ev (VInt 2); ev (VTup [VInt 4; VInt 6]); ev (VInt (-1))] in
+  let ons := fun tr => flat_map (fun c => match snd c with Call "note_on" (VInt n :: _) => [n] | _ => [] end) tr in
+  ons (fst (run_held 4 false 48 lib_defaults []
+         [HScale 100 "held-major" (mkScale [0; 2; 4; 5; 7; 9; 11] 12); HKey 0 0 100; HScale 101 "held-minor" (mkScale [0; 2; 3; 5; 7; 8; 10] 12)]
+         [(15, [HTonic 0 2]); (31, [HRescale 0 101; HSemis 100 [0; 1]])]
+         (pass ++ pass ++ pass)))
+  = [60; 64; 67; 71; 59;  62; 66; 69; 73; 61;  62; 65; 69; 72; 60]
+  /\ key_is_held lib_defaults (ev (VInt 0)) 0
+  /\ Held.key_of (hrun init_store [HScale 100 "held-major" (mkScale [0; 2; 4; 5; 7; 9; 11] 12); HKey 0 0 100; HTonic 0 2]) 0
+     = Some (mkKey 2 (mkScale [0; 2; 4; 5; 7; 9; 11] 12)).
+Proof. vm_compute. repeat split. left; reflexivity. Qed.
